@@ -255,3 +255,86 @@ func TestDeterminism(t *testing.T) {
 		prev = s
 	}
 }
+
+// RWMutex: readers share; a goroutine that read-locks recursively deadlocks exactly in the schedules in which a
+// writer arrives between its two read locks (Go's writer preference); without the writer it never does.
+func TestRWMutexRecursiveReadLock(t *testing.T) {
+	prog := func(writer bool) func() string {
+		return func() string {
+			var mu vrt.RWMutex
+			var wg vrt.WaitGroup
+			wg.Add(1)
+			if writer {
+				wg.Add(1)
+				vrt.Go("writer", func() {
+					mu.Lock()
+					mu.Unlock()
+					wg.Done()
+				})
+			}
+			vrt.Go("reader", func() {
+				mu.RLock()
+				mu.RLock() // nested
+				mu.RUnlock()
+				mu.RUnlock()
+				wg.Done()
+			})
+			wg.Wait()
+			return "done"
+		}
+	}
+	o, _ := outcomes(t, prog(false))
+	expect(t, "recursive read lock alone", o, "done")
+	o, _ = outcomes(t, prog(true))
+	expect(t, "recursive read lock with a writer", o, "FAIL:deadlock done")
+}
+
+// two readers hold the lock at the same time; a writer excludes both
+func TestRWMutexSharing(t *testing.T) {
+	o, _ := outcomes(t, func() string {
+		var mu vrt.RWMutex
+		var wg vrt.WaitGroup
+		inside, maxInside, writing, bad := 0, 0, false, false
+		wg.Add(3)
+		for i := 0; i < 2; i++ {
+			vrt.Go("r", func() {
+				mu.RLock()
+				inside++
+				if inside > maxInside {
+					maxInside = inside
+				}
+				bad = bad || writing
+				vrt.Yield("")
+				inside--
+				mu.RUnlock()
+				wg.Done()
+			})
+		}
+		vrt.Go("w", func() {
+			mu.Lock()
+			writing = true
+			bad = bad || inside > 0
+			vrt.Yield("")
+			writing = false
+			mu.Unlock()
+			wg.Done()
+		})
+		wg.Wait()
+		return fmt.Sprintf("max-readers=%d bad=%v", maxInside, bad)
+	})
+	expect(t, "sharing", o, "max-readers=1 bad=false max-readers=2 bad=false")
+}
+
+// sync.Pool: an object returned twice is reported
+func TestPoolDoublePut(t *testing.T) {
+	o, _ := outcomes(t, func() string {
+		p := &vrt.Pool{New: func() interface{} { return new(struct{ x int }) }}
+		a := p.Get()
+		p.Put(a)
+		b := p.Get() // the same object again (LIFO): taken out, so putting it back once is fine
+		p.Put(b)
+		p.Put(b)
+		return "no report"
+	})
+	expect(t, "double put", o, "FAIL:pool")
+}
